@@ -77,15 +77,22 @@ def is_tokenize_ok_payload(e, collector="Tokenizer::remaining_tokens"):
     return inner[0] == "call" and sfx(inner[1], collector)
 
 
-def edit_path_rules(ck, F, E, P):
+def edit_path_rules(ck, F, E, P, strict=True):
     """Interpreter::evaluate_impl stores a numbered line only with the success payload of tokenisation,
     under the number parsed from the same text.  Returns the store Call (or None)."""
     ev = get_fn(ck, F, "Interpreter::evaluate_impl")
     if ev is None:
         return None, None
     cs = ev.calls_to("Program::set_numbered_line")
-    ck.require(len(cs) == 1, "%s:EDITPATH:one-call" % P, "edit path", "one store call in evaluate_impl",
-               "expected exactly one set_numbered_line call in evaluate_impl, found %d" % len(cs), ev.span)
+    if strict:
+        ck.require(len(cs) == 1, "%s:EDITPATH:one-call" % P, "edit path", "one store call in evaluate_impl",
+                   "expected exactly one set_numbered_line call in evaluate_impl, found %d" % len(cs), ev.span)
+    else:
+        # only the success path matters here: look at the call that stores the tokenised text
+        good = [c for c in cs if is_tokenize_ok_payload(ev.expr(c.args[2]))]
+        ck.require(len(good) >= 1, "%s:EDITPATH:stores-tokens" % P, "edit path", "evaluate_impl stores the tokenised line",
+                   "evaluate_impl no longer stores the tokens it produced", ev.span)
+        cs = good
     for c in cs:
         e = ev.expr(c.args[2])
         ck.require(is_tokenize_ok_payload(e), "%s:EDITPATH:tokens-from-ok-arm" % P, "edit path",
